@@ -10,6 +10,7 @@ use std::collections::BTreeMap;
 
 pub const VARIANTS: &[&str] = &[
     "base", "identical", "pool-added", "pool-removed", "server-changed", "password-changed", "pool-size-changed", "mode-changed", "general-changed", "invalid-toml", "invalid-two-primaries", "invalid-default-role", "with-replica", "roles-swapped",
+    "invalid-default-shard", "invalid-rw-split-without-parser", "invalid-shard-regex", "invalid-auto-sharding-key", "invalid-plugins-without-parser",
 ];
 
 fn is_valid(v: &str) -> bool {
@@ -51,6 +52,15 @@ pub fn variant(v: &str) -> (String, BTreeMap<String, String>) {
         "invalid-two-primaries" => pools[0].shards[0].servers.push(("pg-a2".into(), 5432, "primary".into())),
         "invalid-default-role" => pools[0].extra = "default_role = \"leader\"\n".into(),
         "invalid-toml" => {}
+        // one past the last shard (the pool has exactly one shard: number 0)
+        "invalid-default-shard" => pools[0].extra = "default_shard = \"shard_1\"\n".into(),
+        "invalid-rw-split-without-parser" => pools[0].extra = "query_parser_enabled = false\nquery_parser_read_write_splitting = true\n".into(),
+        "invalid-shard-regex" => pools[0].extra = "shard_id_regex = \"(unclosed\"\n".into(),
+        "invalid-auto-sharding-key" => pools[0].extra = "automatic_sharding_key = \"id\"\n".into(),
+        "invalid-plugins-without-parser" => {
+            pools[0].extra = "query_parser_enabled = false\n".into();
+            pools[0].plugins = "[pools.db.plugins.table_access]\nenabled = true\ntables = [\"t\"]\n".into();
+        }
         _ => panic!("variant"),
     }
     // where a pool's transactions go: its primary (every variant routes to the primary)
@@ -377,7 +387,7 @@ pub fn build(tier: &str) -> SimCheck {
         oracle: Box::new(oracle),
         bound: if thorough { 3 } else { 2 },
         limits: Limits { max_wall_s: if thorough { 1500.0 } else { 55.0 }, ..Default::default() },
-        rule: "scenario = (old, new) configuration pair (identical rewrite, pool added / removed, server list / password / pool_size / pool_mode / general setting changed, invalid TOML, two primaries, bad default_role; also from non-initial definitions) x RELOAD via the admin console or via the SIGHUP path; two clients on an affected and an unaffected pool run three transactions each, a late client logs in afterwards; the reload is placed at every point of their schedules with <= bound deviations".into(),
+        rule: "scenario = (old, new) configuration pair (identical rewrite, pool added / removed, server list / password / pool_size / pool_mode / general setting changed, invalid TOML, two primaries, bad default_role, default_shard one past the last shard, read/write splitting or plugins without the parser, unparsable shard regex, unqualified automatic sharding key; also from non-initial definitions) x RELOAD via the admin console or via the SIGHUP path; two clients on an affected and an unaffected pool run three transactions each, a late client logs in afterwards; the reload is placed at every point of their schedules with <= bound deviations".into(),
         assumptions: vec!["the SIGHUP path is exercised by calling reload_config(), which is all the signal handler does".into()],
     }
 }
